@@ -12,6 +12,9 @@ func init() {
 		}, commonAssumptions...),
 		Phases: []phase{
 			{Name: "main", Pkg: "./workers/c10", QuickShards: 12, ThorShards: 16, QuickTO: 8 * time.Minute},
+			// the multi-write chunk path of the response writer (no Content-Length, more
+			// than one 64 KiB buffer) runs in its own processes: see workers/c10/main.go
+			{Name: "chunked", Pkg: "./workers/c10", QuickShards: 4, ThorShards: 8, QuickTO: 8 * time.Minute},
 		},
 	})
 }
